@@ -95,6 +95,40 @@ def doOp (m : MapSpec) (op : Json) : R Json := do
     | "add_axes", [ax] => return exJ putMS (addAxes (← asList (asOpt asStr) ax) m)
     | n, _ => .error s!"unknown op {n}"
 
+/-- a spec-producing operation (`rename` / `add_axes`, one call or two in a row) -/
+def specOp (m : MapSpec) (op : Json) : R (Except Err MapSpec) := do
+  match ← asArr op with
+  | [] => .error "empty op"
+  | name :: rest =>
+    match ← asStr name, rest with
+    | "rename", [ρ] => return rename (← asList (asPair asStr asStr) ρ) m
+    | "add_axes", [ax] => return addAxes (← asList (asOpt asStr) ax) m
+    | "rename_seq", [ρ, σ] =>
+      return rename (← asList (asPair asStr asStr) ρ) m >>= rename (← asList (asPair asStr asStr) σ)
+    | "add_axes_seq", [ax, bx] =>
+      return addAxes (← asList (asOpt asStr) ax) m >>= addAxes (← asList (asOpt asStr) bx)
+    | n, _ => .error s!"unknown spec op {n}"
+
+/-- `["then", op1, subops, history, touch]`: the sub-operations run on the spec `op1` produces from `m` (the model has no object state:
+    `history` and `touch` only tell the harness what to do with the Python objects before) -/
+def doOpT (m : MapSpec) (op : Json) : R Json := do
+  match ← asArr op with
+  | name :: rest =>
+    if (← asStr name) == "then" then
+      match rest with
+      | [op1, subs, hist, touch] =>
+        let h ← asStr hist
+        if h != "used" && h != "fresh" then .error s!"unknown history {h}"
+        let _ ← asBool touch
+        match ← specOp m op1 with
+        | .error e => return errJ e
+        | .ok m' =>
+          let rs ← (← asArr subs).mapM (doOp m')
+          return jObj [("ok", putMS m'), ("then", jArr rs)]
+      | _ => .error "then: [op1, subops, history, touch] expected"
+    else doOp m op
+  | [] => .error "empty op"
+
 def handle (m : String) (a : Json) : R Json := do
   match m with
   | "parse" =>
@@ -112,7 +146,7 @@ def handle (m : String) (a : Json) : R Json := do
     | .error e => return jObj [("construct", errJ e)]
     | .ok m =>
       let ops ← listF pure a "ops"
-      let rs ← ops.mapM (doOp m)
+      let rs ← ops.mapM (doOpT m)
       return jObj [("construct", jObj [("ok", putMS m)]), ("ops", jArr rs)]
   | "spaced" =>
     -- a whitespace-decorated spec (Model/MapSpecSpaced.lean): its text, the spec it stands for, whether the hypotheses of
